@@ -108,6 +108,7 @@ def run(rep, pid, prop_file, gen, n_quick, n_thorough, disciplines, oracle, rule
     cov['message_histogram'] = res.msg_hist
     cov['values_exactly_equal'] = res.exact_vals
     cov['values_equal_within_1e-9'] = res.inexact_vals
+    cov['values_equal_only_under_absolute_floor_1e-9'] = res.floor_vals
     cov['histories_discarded_zero_division'] = res.zero_div
     cov['histories_ending_in_internal_error'] = len(res.internal)
     cov['samples'] = [{'name': h[0], 'ops': h[4][-12:]} for h in hists[:2]] or [{'none': True}]
